@@ -29,6 +29,22 @@ def inconsistent(d):
             bad.append(("ids",))
         for fn, fi in s["index"]["fields"].items():
             if fn == "T":
+                # time keys are nanoseconds since the epoch: a directory in which the pinned release wrote keys it had
+                # rounded through float64 (F04, after its own reload) is not a valid database either
+                import calendar, re as _re, time as _time
+                for v, oid in fi["index"]:
+                    o = objs.get(ids.get(str(oid)))
+                    ts = o.get("T") if isinstance(o, dict) else None
+                    m = _re.match(r"(\d{4}-\d\d-\d\dT\d\d:\d\d:\d\d)(?:\.(\d+))?Z$", ts or "")
+                    if not m:
+                        bad.append(("T", oid, v, ts))
+                        continue
+                    y = int(m.group(1)[:4])
+                    # (calendar.timegm handles years before 1970; 1700 and 2261 are in the universe)
+                    secs = calendar.timegm(_time.strptime(m.group(1), "%Y-%m-%dT%H:%M:%S"))
+                    ns = secs * 10**9 + int((m.group(2) or "0").ljust(9, "0"))
+                    if ns != v:
+                        bad.append(("T", oid, v, ns))
                 continue
             for v, oid in fi["index"]:
                 o = objs.get(ids.get(str(oid)))
@@ -37,6 +53,9 @@ def inconsistent(d):
                     o = o.get(k) if isinstance(o, dict) else None
                 if o is None and (fn.startswith("P.") or fn == "O"):
                     continue                       # nil pointer / omitted zero value
+                if fn == "Y" and o is not None:
+                    import struct
+                    o = struct.unpack("f", struct.pack("f", o))[0]      # single precision: the index key is the exact double of the float32
                 if o != v:
                     bad.append((fn, oid, v, o))
     return bad
@@ -59,7 +78,9 @@ try:
         for asyn in (False, True):
             for st in range(8):
                 storage = (k * 3 + st) % len(gen.STORAGE)
-                t = gen.random_test(uni, rng, k, nops=18, nslots=6, p_reopen=0.08, p_query=0.0, cfgs=[(cache, asyn)], pal=k % len(gen.PALETTES), max_chain=1)
+                # every second directory has the single-precision field among the three it varies (index keys of inexact values)
+                flds = (rng.sample([f for f in gen.IDX_FIELDS if f != "Y"], 2) + ["Y"]) if k % 2 else None
+                t = gen.random_test(uni, rng, k, nops=18, nslots=6, p_reopen=0.08, p_query=0.0, cfgs=[(cache, asyn)], pal=k % len(gen.PALETTES), max_chain=1, fields=flds)
                 t["cfg"] = gen.make_cfg(cache, asyn, storage)
                 t["id"] = "g%02d" % k
                 tests.append(t)
